@@ -66,6 +66,20 @@ func (x *Exec) evalCall(e *ast.CallExpr, st *State, sp *SpecCtx) Value {
 			return v
 		}
 	}
+	if sp != nil && len(e.Args) == 0 {
+		// observer pseudo-fields in contract expressions: d.datetime.YearDay()
+		if sel, ok := e.Fun.(*ast.SelectorExpr); ok {
+			switch sel.Sel.Name {
+			case "Year", "YearDay", "Day", "Month":
+				if _, isMacro := sp.bound[sel.Sel.Name]; !isMacro && sp.macro(sel.Sel.Name) == nil {
+					if loc := x.lval(sel.X, st, sp); loc != nil && !loc.Opaque && len(loc.Idx) == 0 {
+						pk := loc.Key + ".$" + sel.Sel.Name
+						return x.readLoc(st, &Loc{Key: pk, T: intT, KeyT: intT})
+					}
+				}
+			}
+		}
+	}
 	rt := x.typeOf(e, sp)
 	// ---- builtins ----
 	if id, ok := e.Fun.(*ast.Ident); ok {
@@ -144,6 +158,19 @@ func (x *Exec) evalCall(e *ast.CallExpr, st *State, sp *SpecCtx) Value {
 	if fnObj != nil {
 		if fu := x.prog.ByObj[fnObj]; fu != nil {
 			return x.callRepo(fu, recv, args, e, st)
+		}
+		// pure observers of an external value type (time.Time): modelled as read-only pseudo-fields of the receiver
+		// location, so that two calls on the same unchanged value agree (the value itself stays opaque)
+		if fnObj.Pkg() != nil && fnObj.Pkg().Path() == "time" && sp == nil {
+			switch fnObj.Name() {
+			case "Year", "YearDay", "Day", "Month":
+				if sel, ok := e.Fun.(*ast.SelectorExpr); ok {
+					if loc := x.lval(sel.X, st, nil); loc != nil && !loc.Opaque && len(loc.Idx) == 0 && rt != nil {
+						pk := loc.Key + ".$" + fnObj.Name()
+						return x.readLoc(st, &Loc{Key: pk, T: rt, KeyT: rt})
+					}
+				}
+			}
 		}
 		// method of an external type or interface
 		return x.opaqueCall(x.src(e.Fun), recv, args, e, st, rt)
